@@ -1,6 +1,6 @@
 (* C13 -- windowed metrics report exactly the last N updates / samples; lifetime, all.
    Statements only; proofs live in Proofs/WindowP.v, models in Models/Window.v, WindowAUROC.v.
-   [wctr false] etc. are the faithful (V_asis) models tied to the code by the history
+   [wctr V_code] etc. are the faithful models of the current code tied to the code by the history
    correspondence of vlib/parts/C13_window.py. *)
 From Coq Require Import ZArith List Bool QArith Qcanon Permutation.
 From TE Require Import Base.Val Base.Xq Algebra.Metric Algebra.Pool Models.Window Models.WindowAUROC Proofs.WindowP.
@@ -13,7 +13,7 @@ Definition after_updates (M : Metric) (c : cfg M) (us : list (batch M)) : st M :
 
 (* Generic: any ring buffer whose per-update statistic adds commutatively (up to Req). *)
 Theorem window_refines_queue :
-  forall (W : WinSpec) (L : WinLaws W) (fixed : bool) (c : wcfg) (us : list wbatch),
+  forall (W : WinSpec) (L : WinLaws W) (fixed : variant) (c : wcfg) (us : list wbatch),
     (0 < cN c)%nat -> us <> [] ->
     exists lw ll,
       cmp (win_metric W fixed) c (after_updates (win_metric W fixed) c us)
@@ -26,19 +26,19 @@ Proof. intros W L fixed c us. exact (ring_refines_queue W L c us). Qed.
    lifetime value = ClickThroughRate over all updates; never the empty result. *)
 Theorem window_refines_queue_ctr :
   forall (c : wcfg) (us : list wbatch), (0 < cN c)%nat -> us <> [] ->
-    cmp (wctr false) c (after_updates (wctr false) c us)
+    cmp (wctr V_code) c (after_updates (wctr V_code) c us)
     = WOut (if cLife c then Some (win_ref ctr_spec c us) else None) (win_ref ctr_spec c (lastn (cN c) us)).
 Proof. intros c us. exact (ring_refines_queue_eq ctr_spec ctr_laws c (fun x y H => H) us). Qed.
 
 Theorem window_refines_queue_wcal :
   forall (c : wcfg) (us : list wbatch), (0 < cN c)%nat -> us <> [] ->
-    cmp (wcal false) c (after_updates (wcal false) c us)
+    cmp (wcal V_code) c (after_updates (wcal V_code) c us)
     = WOut (if cLife c then Some (win_ref wcal_spec c us) else None) (win_ref wcal_spec c (lastn (cN c) us)).
 Proof. intros c us. exact (ring_refines_queue_eq wcal_spec wcal_laws c (fun x y H => H) us). Qed.
 
 Theorem window_refines_queue_mse :
   forall (c : wcfg) (us : list wbatch), (0 < cN c)%nat -> us <> [] ->
-    cmp (wmse false) c (after_updates (wmse false) c us)
+    cmp (wmse V_code) c (after_updates (wmse V_code) c us)
     = WOut (if cLife c then Some (win_ref mse_spec c us) else None) (win_ref mse_spec c (lastn (cN c) us)).
 Proof. intros c us. exact (ring_refines_queue_eq mse_spec mse_laws c (fun x y H => H) us). Qed.
 
@@ -48,7 +48,7 @@ Proof. intros c us. exact (ring_refines_queue_eq mse_spec mse_laws c (fun x y H 
 Theorem window_refines_queue_ne :
   forall (c : wcfg) (us : list wbatch), (0 < cN c)%nat -> us <> [] ->
     exists lw ll,
-      cmp (wne false) c (after_updates (wne false) c us) = WOut (if cLife c then Some ll else None) lw /\
+      cmp (wne V_code) c (after_updates (wne V_code) c us) = WOut (if cLife c then Some ll else None) lw /\
       Forall2 ne_equiv lw (win_ref ne_spec c (lastn (cN c) us)) /\
       (cLife c = true -> Forall2 ne_equiv ll (win_ref ne_spec c us)).
 Proof.
@@ -64,7 +64,7 @@ Proof. intros ln a b (H1 & H2 & H3). repeat split; [apply sym_eval_perm; exact H
    the last min(total, N) samples -- all three insertion cases of update(). *)
 Theorem window_auroc_refines_lastN :
   forall (c : acfg) (bs : list (list col)), (0 < aN c)%nat ->
-    acontents (after_updates (wauroc false) c bs) = lastn (aN c) (List.concat bs).
+    acontents (after_updates (wauroc V_code) c bs) = lastn (aN c) (List.concat bs).
 Proof. exact auroc_window_holds_lastN. Qed.
 
 (* compute() level, PARTIAL: if no sample has the score 0 (for all tasks at once), compute()
@@ -73,32 +73,32 @@ Proof. exact auroc_window_holds_lastN. Qed.
 Theorem window_auroc_reads_lastN_partial :
   forall (c : acfg) (bs : list (list col)), (0 < aN c)%nat ->
     Forall (fun cl => nonzero_col cl = true) (List.concat bs) ->
-    Permutation (aread (after_updates (wauroc false) c bs)) (lastn (aN c) (List.concat bs)).
+    Permutation (aread (after_updates (wauroc V_code) c bs)) (lastn (aN c) (List.concat bs)).
 Proof. exact auroc_reads_lastN_partial. Qed.
 
 (* The faithful model falsifies the full statement for WindowedBinaryAUROC (D6). *)
 Definition auroc_window_correct : Prop :=
   forall (c : acfg) (bs : list (list col)), (0 < aN c)%nat -> bs <> [] ->
     Forall (fun b => avalid c b = true) bs ->
-    cmp (wauroc false) c (after_updates (wauroc false) c bs) = auroc_ref c (lastn (aN c) (List.concat bs)).
+    cmp (wauroc V_code) c (after_updates (wauroc V_code) c bs) = auroc_ref c (lastn (aN c) (List.concat bs)).
 
 Theorem window_auroc_zero_score_refuted : ~ auroc_window_correct.
 Proof.
   intros H.
-  assert (Hx : cmp (wauroc false) d6_cfg (after_updates (wauroc false) d6_cfg d6_batches)
+  assert (Hx : cmp (wauroc V_code) d6_cfg (after_updates (wauroc V_code) d6_cfg d6_batches)
                = auroc_ref d6_cfg (lastn (aN d6_cfg) (List.concat d6_batches))).
   { apply H; [cbn; auto with arith|discriminate|repeat constructor]. }
   vm_compute in Hx. discriminate Hx.
 Qed.
 (* the values: the code answers 1/2, the AUROC of the last four samples is 1/4 *)
 Theorem window_auroc_zero_score_witness :
-  cmp (wauroc false) d6_cfg (after_updates (wauroc false) d6_cfg d6_batches) = AScalar (q 1 2) /\
+  cmp (wauroc V_code) d6_cfg (after_updates (wauroc V_code) d6_cfg d6_batches) = AScalar (q 1 2) /\
   auroc_ref d6_cfg (lastn 4 (List.concat d6_batches)) = AScalar (q 1 4).
 Proof. exact d6_zero_score. Qed.
 
 Theorem window_auroc_single_sample_refuted :
   exists (c : acfg) (bs : list (list col)), (0 < aN c)%nat /\ Forall (fun b => avalid c b = true) bs /\
-    cmp (wauroc false) c (after_updates (wauroc false) c bs) = AErr /\
+    cmp (wauroc V_code) c (after_updates (wauroc V_code) c bs) = AErr /\
     auroc_ref c (lastn (aN c) (List.concat bs)) = AScalar (q 1 2).
 Proof.
   exists d6_cfg, d6b_batches. destruct d6_single_sample as [E1 E2].
@@ -107,7 +107,7 @@ Qed.
 
 Theorem window_auroc_one_slot_two_tasks_refuted :
   exists (c : acfg) (bs : list (list col)), (0 < aN c)%nat /\ Forall (fun b => avalid c b = true) bs /\
-    cmp (wauroc false) c (after_updates (wauroc false) c bs) = AScalar (q 0 1) /\
+    cmp (wauroc V_code) c (after_updates (wauroc V_code) c bs) = AScalar (q 0 1) /\
     auroc_ref c (lastn (aN c) (List.concat bs)) = AVec [q 1 2; q 1 2].
 Proof.
   exists d6c_cfg, d6c_batches. destruct d6_one_slot_two_tasks as [E1 E2].
@@ -118,7 +118,7 @@ Qed.
 Example wctr_docstring_example :
   let b (l : list Z) : wbatch := {| b_x := [map (fun z => mkq z 1) l]; b_y := []; b_w := [map (fun _ => mkq 1 1) l] |} in
   let c := {| cT := 1; cN := 2; cLife := true; cOpt := false |} in
-  cmp (wctr false) c (after_updates (wctr false) c
+  cmp (wctr V_code) c (after_updates (wctr V_code) c
         [b [0;1;0;1;1;0;0;1]%Z; b [0;1;0;1;1;1;1;1]%Z; b [0;1;0;1;0;0;0;1]%Z])
   = WOut (Some [mkq 13 24]) [mkq 9 16].
 Proof. vm_compute. reflexivity. Qed.
